@@ -146,6 +146,30 @@ def run_differential(ctx, cases, project, config='default', label=None, classify
     return impl, model
 
 
+class CgCase:
+    """one decoded input of the coverage-guided corpus (tools/cg.py)"""
+    __slots__ = ('line', 'fam')
+
+    def __init__(self, line):
+        self.line = line
+        self.fam = 'cg/' + line.split(' ', 1)[0]
+
+
+def cg_lines(ctx, ops):
+    """op lines of the coverage-guided corpus for the given op-name prefixes (committed corpus; plus, when /repo's
+    sources differ from the tree it was grown on or in the thorough tier, a fresh coverage-guided stage)"""
+    import cg
+    return cg.lines(ctx.thorough, ops, ctx.notes if not any('coverage-guided' in n for n in ctx.notes) else None)
+
+
+def run_cg(ctx, ops, project, classify=None):
+    """the coverage-guided corpus through implementation and model under the property's projection"""
+    cases = [CgCase(l) for l in cg_lines(ctx, ops)]
+    if cases:
+        run_differential(ctx, cases, project, classify=classify)
+    return cases
+
+
 def lean_step(ctx, modules, audit=None):
     ok = ctx.lean(modules)
     if ok:
